@@ -46,23 +46,41 @@ def enc_num(v):
     raise ValueError(v)
 
 
-def enc_item(v):
+# the largest sizes among all values encoded so far (every generated document goes through enc): reported per property in the
+# evidence (`stats.size_maxima`) so that "which sizes did this check reach" is a recorded fact (second review, H2)
+SIZE_MAX = {'string_or_key_bytes': 0, 'container_members': 0, 'nesting': 0, 'document_bytes': 0}
+
+
+def enc_item(v, _d=1):
     k = v[0]
     if k == 'n':
         return J_NULL, b''
     if k == 'b':
         return (J_TRUE if v[1] else J_FALSE), b''
     if k == 's':
+        if len(v[1]) > SIZE_MAX['string_or_key_bytes']:
+            SIZE_MAX['string_or_key_bytes'] = len(v[1])
         return J_STRING | len(v[1]), v[1]
     if k in 'iud':
         p = enc_num(v)
         return J_NUMBER | len(p), p
     if k == 'a':
-        items = [enc_item(x) for x in v[1]]
+        items = [enc_item(x, _d + 1) for x in v[1]]
+        if len(items) > SIZE_MAX['container_members']:
+            SIZE_MAX['container_members'] = len(items)
+        if _d > SIZE_MAX['nesting']:
+            SIZE_MAX['nesting'] = _d
         body = be32(ARRAY_TAG | len(items)) + b''.join(be32(j) for j, _ in items) + b''.join(p for _, p in items)
         return J_CONTAINER | len(body), body
     if k == 'o':
-        items = [enc_item(x) for _, x in v[1]]
+        items = [enc_item(x, _d + 1) for _, x in v[1]]
+        if len(items) > SIZE_MAX['container_members']:
+            SIZE_MAX['container_members'] = len(items)
+        if _d > SIZE_MAX['nesting']:
+            SIZE_MAX['nesting'] = _d
+        for kk, _ in v[1]:
+            if len(kk) > SIZE_MAX['string_or_key_bytes']:
+                SIZE_MAX['string_or_key_bytes'] = len(kk)
         body = (be32(OBJECT_TAG | len(items)) + b''.join(be32(J_STRING | len(kk)) for kk, _ in v[1])
                 + b''.join(be32(j) for j, _ in items) + b''.join(kk for kk, _ in v[1]) + b''.join(p for _, p in items))
         return J_CONTAINER | len(body), body
@@ -71,9 +89,10 @@ def enc_item(v):
 
 def enc(v):
     j, p = enc_item(v)
-    if v[0] in 'ao':
-        return p
-    return be32(SCALAR_TAG) + be32(j) + p
+    out = p if v[0] in 'ao' else be32(SCALAR_TAG) + be32(j) + p
+    if len(out) > SIZE_MAX['document_bytes']:
+        SIZE_MAX['document_bytes'] = len(out)
+    return out
 
 
 # ---------------------------------------------------------------- neutral value text
